@@ -104,8 +104,10 @@ class PossibleMatch:
         self._open_atoms = []
 
         possible_substructures = mol.GetSubstructMatches(pattern)
+        open_atoms = None
         if substructure in possible_substructures:
             open_atoms = self._find_open_atoms(substructure, token)
+        if open_atoms is not None:
             self._add_new_open_atoms(open_atoms)
             self._log_prob = np.log(initial_prob)
             self.add_handled_atoms(substructure)
@@ -154,7 +156,7 @@ class PossibleMatch:
         open_atoms = []
         for atom_idx in substructure:
             if self.is_atom_handled(atom_idx):
-                return []
+                return None
             aoi = self._mol.GetAtomWithIdx(atom_idx)
             for bond in aoi.GetBonds():
                 if (
@@ -169,7 +171,7 @@ class PossibleMatch:
                     outside_bonds.append((bond.GetEndAtomIdx(), bond.GetBeginAtomIdx()))
         # Consider it only a true match if the number of outside bonds matches the number of bond descriptors
         if len(outside_bonds) != len(token.bond_descriptors):
-            return []
+            return None
         # Ensure that the outside bonds correspond to bond descriptors
         tmp_bd = copy.deepcopy(token.bond_descriptors)
         for bond in outside_bonds:
@@ -184,7 +186,7 @@ class PossibleMatch:
                     bd_idx = i
                     break
             if bd_idx is None:
-                return []
+                return None
             del tmp_bd[bd_idx]
         if len(tmp_bd) != 0:
             raise RuntimeError("length should be 0 here")
@@ -302,6 +304,9 @@ class PossibleMatch:
                             new_match = match.copy(reaction_prob)
                             # Find new open bond that can react
                             new_open_atoms = new_match._find_open_atoms(substructure, token)
+                            if new_open_atoms is None:
+                                # Every bond that leaves the fragment has to belong to one of the token's bond descriptors.
+                                continue
                             new_match._add_new_open_atoms(new_open_atoms)
                             # Add the handled atoms to the match
                             new_match.add_handled_atoms(substructure)
